@@ -19,6 +19,7 @@
 //	R6 time.Now()                  -> vrt.Now()
 //	R7 os.Exit(c)                  -> vrt.Exit(c)
 //	R8 accesses to variables captured by go closures -> preceded by vrt.Acc(&v, isWrite, pos)
+//	R10 func main() { B } in package main -> func main() { vrt.Main(func(){ B }) }
 //
 // Anything it cannot rewrite soundly is a hard error (exit 1), never skipped
 // silently.
@@ -334,6 +335,12 @@ func (rw *rewriter) rewriteFile() {
 			rw.findShared(fd.Body)
 		}
 		rw.block(fd.Body)
+		// R10: the program entry point runs as thread 0 of a controlled execution
+		// when the environment asks for one (subprocess mode), else unchanged
+		if rw.pkg.Name() == "main" && fd.Recv == nil && fd.Name.Name == "main" {
+			body := fd.Body
+			fd.Body = &ast.BlockStmt{List: []ast.Stmt{&ast.ExprStmt{X: rw.call("Main", &ast.FuncLit{Type: &ast.FuncType{Params: &ast.FieldList{}}, Body: body})}}}
+		}
 	}
 	// keep possibly orphaned imports alive
 	if rw.changed {
